@@ -660,10 +660,18 @@ class DoctestParser:
             mode_hint = 'exec'
         else:
             # Is the last statement evaluate-able?
-            if isinstance(statement_nodes[-1], ast.Expr):
+            last_node = statement_nodes[-1]
+            if isinstance(last_node, ast.Expr):
                 # This should just be an Expr in python3
                 # (todo: ensure this is true)
                 mode_hint = 'eval'
+            elif (isinstance(last_node, (ast.For, ast.While, ast.If, ast.With,
+                                         ast.AsyncFor, ast.AsyncWith)) and
+                  getattr(last_node, 'end_lineno', None) == last_node.lineno):
+                # A compound statement written on one line (for x in y: x)
+                # shows the values of the expression statements in its body
+                # the way the interactive interpreter does.
+                mode_hint = 'single'
 
         # WORKON_BACKWARDS_COMPAT_CONTINUE_EVAL:
         # Force doctests parts to evaluate in backwards compatible "single"
